@@ -73,10 +73,10 @@ def rand_atom(rng, system='en', exotic=False):
     if system == 'en':
         b = rng.choice(EN_BASES)
         if exotic and rng.random() < 0.3:
-            b = rng.choice(['Sx', 'N1', 'nP', 'ü', 'カ', 'a=b', 'a,b', 'X'])
+            b = rng.choice(['Sx', 'N1', 'nP', 'ü', 'カ', 'a=b', 'a,b', 'X', 'IP-MS', "N'", 'a+b', 'x#', 'q!', '@', 'CP-THT', '%', 'a.b', '~', 'x?y', '$', 'a&b', '"q"', '^'])
         f = None if b in ps else rng.choice(EN_FEATS)
         if exotic and f is not None and rng.random() < 0.2:
-            f = rng.choice(['a=b', 'a,b', 'x1', 'カ', 'q.r'])
+            f = rng.choice(['a=b', 'a,b', 'x1', 'カ', 'q.r', '+wh', '-wh', "a'", 'x#1', '!', 'a&b', '%', 'a:b', '@x'])
         return mk_atom(b, f)
     b = rng.choice(JA_BASES)
     f = rng.choice(JA_FEATS)
